@@ -175,6 +175,7 @@ class _CanonLoops(ast.NodeTransformer):
     """the functional spellings of four loop idioms are read as the loops the code base writes them as:
        if not any(C for T in IT): S          ->  for T in IT: (if C: break)  else: S
        f = any(C for T in IT)                ->  f = False; for T in IT: if C: f = True; break
+       if any(C for T in IT): S              ->  f = any(...) as above; if f: S
        n = sum(1 for T in IT if C)           ->  n = 0; for T in IT: if C: n += 1
        acc.extend(E for T in IT if C)        ->  for T in IT: if C: acc.append(E)
     and inside a loop ``if C: continue`` followed by the rest of the body is read as ``if not C: <rest>``"""
@@ -212,6 +213,13 @@ class _CanonLoops(ast.NodeTransformer):
             t, it, conds, elt = _gen1(st.test.operand.args[0])
             inner = ast.If(test=_and(conds + [elt]), body=[ast.Break()], orelse=[])
             return [ast.copy_location(ast.For(target=t, iter=it, body=[inner], orelse=st.body, type_comment=None), st)]
+        # if any(genexp): S [else: R]   ->   f = any(genexp); if f: S [else: R]    (then the next form)
+        if isinstance(st, ast.If) and isinstance(st.test, ast.Call) and isinstance(st.test.func, ast.Name) and st.test.func.id == 'any' \
+                and len(st.test.args) == 1 and not st.test.keywords and _gen1(st.test.args[0]):
+            flag = f'_any_{st.lineno}_{st.col_offset}'
+            first = ast.copy_location(ast.Assign(targets=[ast.Name(id=flag, ctx=ast.Store())], value=st.test), st)
+            test = ast.copy_location(ast.Name(id=flag, ctx=ast.Load()), st.test)
+            return self._one(first) + [ast.copy_location(ast.If(test=test, body=st.body, orelse=st.orelse), st)]
         if isinstance(st, ast.Assign) and len(st.targets) == 1 and isinstance(st.targets[0], ast.Name) and isinstance(st.value, ast.Call) \
                 and isinstance(st.value.func, ast.Name) and len(st.value.args) == 1 and not st.value.keywords and _gen1(st.value.args[0]):
             t, it, conds, elt = _gen1(st.value.args[0])
